@@ -269,6 +269,7 @@ func (w *World) build(i int, in Inst) *Built {
 	b := &Built{Idx: i, Spec: in}
 	rec := w.Rec
 	L := !w.NoListeners
+	on := func(name string) bool { return L && !in.Muted(name) }
 	att := func(name string) func(failsafe.ExecutionEvent[int]) {
 		return func(e failsafe.ExecutionEvent[int]) { rec.add(rec.Attempt(i, name, e.ExecutionAttempt)) }
 	}
@@ -310,17 +311,30 @@ func (w *World) build(i int, in Inst) *Built {
 		case "1h":
 			rb.WithMaxDuration(time.Hour)
 		}
-		if L {
-			rb.OnSuccess(att("OnSuccess")).OnFailure(att("OnFailure")).OnRetry(att("OnRetry")).
-				OnRetriesExceeded(att("OnRetriesExceeded")).OnAbort(att("OnAbort")).
-				OnRetryScheduled(func(e failsafe.ExecutionScheduledEvent[int]) {
-					en := rec.Attempt(i, "OnRetryScheduled", e.ExecutionAttempt)
-					en.HasDelay, en.Delay = true, e.Delay
-					rec.add(en)
-					if f := cancelOf(e.Context()); in.CancelInScheduled && f != nil {
-						f()
-					}
-				})
+		if on("OnSuccess") {
+			rb.OnSuccess(att("OnSuccess"))
+		}
+		if on("OnFailure") {
+			rb.OnFailure(att("OnFailure"))
+		}
+		if on("OnRetry") {
+			rb.OnRetry(att("OnRetry"))
+		}
+		if on("OnRetriesExceeded") {
+			rb.OnRetriesExceeded(att("OnRetriesExceeded"))
+		}
+		if on("OnAbort") {
+			rb.OnAbort(att("OnAbort"))
+		}
+		if on("OnRetryScheduled") {
+			rb.OnRetryScheduled(func(e failsafe.ExecutionScheduledEvent[int]) {
+				en := rec.Attempt(i, "OnRetryScheduled", e.ExecutionAttempt)
+				en.HasDelay, en.Delay = true, e.Delay
+				rec.add(en)
+				if f := cancelOf(e.Context()); in.CancelInScheduled && f != nil {
+					f()
+				}
+			})
 		}
 		b.Pol = rb.Build()
 	case "breaker":
@@ -349,14 +363,28 @@ func (w *World) build(i int, in Inst) *Built {
 			})
 		}
 		applyHandle[circuitbreaker.CircuitBreakerBuilder[int]](cb, in.Conds)
-		if L {
-			cb.OnSuccess(att("OnSuccess")).OnFailure(att("OnFailure"))
-			state := func(name string) func(circuitbreaker.StateChangedEvent) {
-				return func(e circuitbreaker.StateChangedEvent) {
-					rec.add(Entry{Pol: i, Name: name, Exec: execID(e.Context()), Old: e.OldState.String(), New: e.NewState.String()})
-				}
+		if on("OnSuccess") {
+			cb.OnSuccess(att("OnSuccess"))
+		}
+		if on("OnFailure") {
+			cb.OnFailure(att("OnFailure"))
+		}
+		state := func(name string) func(circuitbreaker.StateChangedEvent) {
+			return func(e circuitbreaker.StateChangedEvent) {
+				rec.add(Entry{Pol: i, Name: name, Exec: execID(e.Context()), Old: e.OldState.String(), New: e.NewState.String()})
 			}
-			cb.OnStateChanged(state("OnStateChanged")).OnOpen(state("OnOpen")).OnHalfOpen(state("OnHalfOpen")).OnClose(state("OnClose"))
+		}
+		if on("OnStateChanged") {
+			cb.OnStateChanged(state("OnStateChanged"))
+		}
+		if on("OnOpen") {
+			cb.OnOpen(state("OnOpen"))
+		}
+		if on("OnHalfOpen") {
+			cb.OnHalfOpen(state("OnHalfOpen"))
+		}
+		if on("OnClose") {
+			cb.OnClose(state("OnClose"))
 		}
 		circuitbreaker.VerifWithClock[int](cb, func() int64 { return w.Now })
 		b.CB = cb.Build()
@@ -384,8 +412,14 @@ func (w *World) build(i int, in Inst) *Built {
 			})
 		}
 		applyHandle[fallback.FallbackBuilder[int]](fb, in.Conds)
-		if L {
-			fb.OnSuccess(att("OnSuccess")).OnFailure(att("OnFailure")).OnFallbackExecuted(func(e failsafe.ExecutionDoneEvent[int]) {
+		if on("OnSuccess") {
+			fb.OnSuccess(att("OnSuccess"))
+		}
+		if on("OnFailure") {
+			fb.OnFailure(att("OnFailure"))
+		}
+		if on("OnFallbackExecuted") {
+			fb.OnFallbackExecuted(func(e failsafe.ExecutionDoneEvent[int]) {
 				en := rec.Info(i, "OnFallbackExecuted", e.ExecutionInfo)
 				en.HasRes, en.Res, en.Err = true, e.Result, e.Error
 				rec.add(en)
@@ -398,8 +432,14 @@ func (w *World) build(i int, in Inst) *Built {
 			c := c
 			cb.CacheIf(func(v int, e error) bool { return c.Match(v, e) })
 		}
-		if L {
-			cb.OnCacheMiss(att("OnCacheMiss")).OnResultCached(att("OnResultCached")).OnCacheHit(func(e failsafe.ExecutionDoneEvent[int]) {
+		if on("OnCacheMiss") {
+			cb.OnCacheMiss(att("OnCacheMiss"))
+		}
+		if on("OnResultCached") {
+			cb.OnResultCached(att("OnResultCached"))
+		}
+		if on("OnCacheHit") {
+			cb.OnCacheHit(func(e failsafe.ExecutionDoneEvent[int]) {
 				en := rec.Info(i, "OnCacheHit", e.ExecutionInfo)
 				en.HasRes, en.Res, en.Err = true, e.Result, e.Error
 				rec.add(en)
@@ -408,7 +448,7 @@ func (w *World) build(i int, in Inst) *Built {
 		b.Pol = cb.Build()
 	case "bulkhead":
 		bb := bulkhead.Builder[int](uint(in.Max)).WithMaxWaitTime(time.Duration(in.MaxWaitMs) * time.Millisecond)
-		if L {
+		if on("OnFull") {
 			bb.OnFull(att("OnFull"))
 		}
 		b.BH = bb.Build()
@@ -419,7 +459,7 @@ func (w *World) build(i int, in Inst) *Built {
 			limit = FireLimit
 		}
 		tb := timeout.Builder[int](limit)
-		if L {
+		if on("OnTimeoutExceeded") {
 			tb.OnTimeoutExceeded(func(e failsafe.ExecutionDoneEvent[int]) {
 				en := rec.Info(i, "OnTimeoutExceeded", e.ExecutionInfo)
 				en.HasRes, en.Res, en.Err = true, e.Result, e.Error
@@ -445,7 +485,7 @@ func (w *World) build(i int, in Inst) *Built {
 				hb.CancelIf(Preds[c.Pred])
 			}
 		}
-		if L {
+		if on("OnHedge") {
 			hb.OnHedge(att("OnHedge"))
 		}
 		b.Pol = hb.Build()
@@ -456,7 +496,7 @@ func (w *World) build(i int, in Inst) *Built {
 		} else {
 			rb = ratelimiter.BurstyBuilder[int](uint(in.Per), time.Duration(in.Unit))
 		}
-		if L {
+		if on("OnRateLimitExceeded") {
 			rb.OnRateLimitExceeded(att("OnRateLimitExceeded"))
 		}
 		b.RL = rb.Build()
